@@ -220,6 +220,7 @@ func genGb(r *kit.Rand) []string {
 
 var modelledKinds = []string{"sample", "statecount", "wherecount", "evalcount", "alertgt", "alertmod", "sum", "count", "wherenested", "evalnested", "alertnested",
 	"stateduration", "changedetect", "derivative", "derivativenn", "windowc", "windowcfill", "alertthr", "alertthrsco",
+	"statecountfn", "statedurationfn", "winstatecountfn",
 	"winsample", "winstatecount", "winwhere", "winchange", "winderiv", "winsum", "wincount"}
 var opaqueKinds []string
 
@@ -269,6 +270,8 @@ func genIso(r *kit.Rand, kind string, big bool) []string {
 		p2 = r.Intn(p1)
 	case "alertnested":
 		p1 = r.Range(1, 5)
+	case "statecountfn", "statedurationfn", "alertlevelsfn":
+		p1 = r.Range(2, 4)
 	case "alertthr", "alertthrsco":
 		p1 = r.Range(0, 5)
 	case "windowc", "windowcfill":
@@ -335,7 +338,7 @@ func genIso(r *kit.Rand, kind string, big bool) []string {
 			g.typ = kit.Pick(r, []string{"i", "f", "s", "b"})
 		case kind == "winalertcount" || kind == "winwhere" || kind == "winsample" || kind == "winchange" || kind == "wincount":
 			g.typ = kit.Pick(r, []string{"i", "i", "f", "s"})
-		case kind == "evalspread" || kind == "evalsigma" || kind == "wheresigma" || kind == "alertsigma":
+		case kind == "evalspread" || kind == "evalsigma" || kind == "wheresigma" || kind == "alertsigma" || kind == "statecountsigma" || kind == "statedurspread" || kind == "alertlevelsfn":
 			g.typ = kit.Pick(r, []string{"f", "f", "f", "i"}) // sigma/spread want floats; an int group errors
 		default:
 			g.typ = kit.Pick(r, []string{"i", "i", "f"}) // numeric nodes: int and float groups side by side
